@@ -274,12 +274,16 @@ def lit_text(v, cfg):
 
 
 def name_text(ws, case="lower"):
-    t = " ".join(ws)
+    """a variable name in another letter case - letter by letter, and only letters whose case mapping round-trips (a dotless i
+    written as I would read back as another letter: that is another name, not another spelling of this one)"""
+    def up(ch):
+        u = ch.upper()
+        return u if len(u) == 1 and u.lower() == ch else ch
     if case == "upper":
-        return t.upper()
+        return " ".join("".join(up(ch) for ch in w) for w in ws)
     if case == "title":
-        return t.title()
-    return t
+        return " ".join(up(w[:1]) + w[1:] for w in ws)
+    return " ".join(ws)
 
 
 # lines expected to fail: in the parser ("(", ...) and in the evaluation (well-formed, but no such operation)
